@@ -457,11 +457,17 @@ class TaskPool:
             and self.runahead_limit_point is not None
             and (
                 base_point == self._prev_runahead_base_point
-                or self.runahead_limit_point == self.stop_point
+                or (
+                    self.runahead_limit_point == self.stop_point
+                    and base_point > self._prev_runahead_base_point
+                )
             )
         ):
             # No need to recompute the list of points if the base point did not
-            # change or the runahead limit is already at stop point.
+            # change, or if the runahead limit is already at the stop point
+            # and the base point moved forward. (The base point can move back,
+            # e.g. if an earlier task is triggered or a future-triggered task
+            # is spawned; the limit may then drop below the stop point).
             return False
 
         # Now generate all possible cycle points from the base point and stop
